@@ -327,13 +327,18 @@ FAULTY = [
     ("location:duplicate-id", [('<location id="fb"><name>FB</name></location>', '<location id="fb"><name>FB</name></location><location id="fb"><name>FC</name></location>')]),
     ("location:duplicate-name", [('<location id="fb"><name>FB</name></location>', '<location id="fb"><name>FA</name></location>')]),
     ("invariant:syntax", [("v &gt;= 0</label>", "v &gt;= </label>")]),
+    ("guard:truncated-forall-body", [("v &gt; 1 &amp;&amp; sel &gt;= 0", "forall (qq : int[0,1]) v + qq &gt;=")]),
+    ("guard:truncated-nested-quantifiers", [("v &gt; 1 &amp;&amp; sel &gt;= 0", "forall (qq : int[0,1]) exists (rr : int[0,1]) (v + qq &gt; rr")]),
+    ("invariant:truncated-forall-body", [("v &gt;= 0</label>", "forall (qq : int[0,1]) v &gt;= </label>")]),
+    ("assign:truncated-sum", [("r1 = v", "r1 = sum (qq : int[0,1]) (v +")]),
+    ("select:truncated", [("sel : int[0,3]", "sel : int[0,")]),
 ]
 
 
 def build_recovery(i, f_first=True):
     """Template F (declares its own v, lf, sel) with fault i, template G (declares nothing), and a system section; all
     uses of v outside F must bind to the global v whatever went wrong inside F."""
-    F = ('<template><name>F</name><parameter>const int[0,101] fp</parameter><declaration>int[0,102] v; int lf(int q) { return q; }</declaration>'
+    F = ('<template><name>F</name><parameter>const int[0,101] fp</parameter><declaration>typedef int[0,1] gid_t; int[0,102] v; int lf(int q) { return q; }</declaration>'
          '<location id="fa"><name>FA</name><label kind="invariant">v &gt;= 0</label></location><location id="fb"><name>FB</name></location><init ref="fa"/>'
          '<transition><source ref="fa"/><target ref="fb"/><label kind="select">sel : int[0,3]</label><label kind="guard">v &gt; 1 &amp;&amp; sel &gt;= 0</label>'
          '<label kind="synchronisation">ca[sel]!</label><label kind="assignment">r1 = v</label></transition>'
@@ -341,11 +346,11 @@ def build_recovery(i, f_first=True):
     for a, b in FAULTY[i][1]:
         assert a in F, (FAULTY[i][0], a)
         F = F.replace(a, b, 1)
-    G = ('<template><name>G</name><parameter>const int[0,111] gp</parameter><declaration>int guse = v;</declaration>'
+    G = ('<template><name>G</name><parameter>const int[0,111] gp, const gid_t me</parameter><declaration>int guse = v; gid_t gl;</declaration>'
          '<location id="ga"><name>GA</name><label kind="invariant">v &gt;= 0</label></location><location id="gb"><name>GB</name></location><init ref="ga"/>'
          '<transition><source ref="ga"/><target ref="gb"/><label kind="guard">v &gt; 3</label><label kind="assignment">r2 = v + gp</label></transition></template>')
-    gdecl = "int[0,100] v; int r1; int r2; chan ca[4];"
-    sysd = "int sys_use = v;\nF1 = F(1);\nG1 = G(v);\nsystem F1, G1;"
+    gdecl = "typedef int[0,7] gid_t; int[0,100] v; int r1; int r2; chan ca[4];"
+    sysd = "int sys_use = v;\ngid_t sys_t;\nF1 = F(1);\nG1 = G(v, 1);\nsystem F1, G1;"
     ts = F + G if f_first else G + F
     return (xmlgen.HEADER + "<nta><declaration>" + xmlgen.esc(gdecl) + "</declaration>" + ts + "<system>" + xmlgen.esc(sysd) +
             "</system></nta>")
@@ -371,7 +376,21 @@ def recovery_observed(doc):
             obs["G.update"] = own(t["edges"][0]["assign"])
     for i in doc["instances"]:
         if i["name"] == "G1":
-            obs["G1.argument"] = own(" ".join(i["mapping"].values()))
+            obs["G1.argument"] = own(" ".join(v for k, v in i["mapping"].items() if k.startswith("gp")))
+    # the type name gid_t (global: [0,7]; F declares its own [0,1]) used outside F
+    def ub(t):
+        m = re.search(r"\(CONSTANT i 0\)> <UNKNOWN \(CONSTANT i (\d+)\)>", t or "")
+        return ("global" if m.group(1) == "7" else "typedef-with-bound-" + m.group(1)) if m else "?"
+    if "sys_t" in gv:
+        obs["SYS.type-name"] = ub(gv["sys_t"]["type"])
+    for t in doc["templates"]:
+        if t["name"] == "G":
+            for p in t["params"]:
+                if p["name"] == "me":
+                    obs["G.parameter-type-name"] = ub(p["type"])
+            for x in t["decl"]["vars"]:
+                if x["name"] == "gl":
+                    obs["G.local-type-name"] = ub(x["type"])
     return obs
 
 
@@ -429,6 +448,66 @@ def run_fixture2(rep, rng, quick):
                     rep.violation("C07:nested-binder:bound-to-global:" + what, "in %s the use of %s inside the innermost statement is "
                                   "bound to the global clock instead of the enclosing binder: %s" % (what, v, body[:600]), c)
                     break
+    # ---- binders that range over the processes of dynamic templates: p.y is looked up in the template of the nearest p
+    def dyn_t(name, decl):
+        return ('<template><name>%s</name><declaration>%s</declaration><location id="%s0"><name>L</name></location><init ref="%s0"/></template>'
+                % (name, decl, name, name))
+    dyn_forms = [("forall (p : A) (forall (p : B) (p.y > 0))", ["B"]), ("forall (p : B) (exists (p : A) (p.y > 0))", ["A"]),
+                 ("forall (p : A) (p.y > 0 && exists (q : B) (q.y > p.y))", ["A", "B", "A"]),
+                 ("forall (p : A) (forall (q : B) (forall (p : C) (p.y > q.y)))", ["C", "B"]),
+                 ("forall (p : A) ((exists (p : B) (p.y > 1)) && p.y > 2)", ["B", "A"]),
+                 ("(sum (p : A) (p.y)) + (sum (p : B) (p.y)) > 0", ["A", "B"]),
+                 ("forall (p : A) (forall (p : B) ((forall (p : C) (p.y > 0)) && p.y > 1))", ["C", "B"]),
+                 ("forall (p : A) (forall (p : B) (forall (p : C) (p.y > 0)) && p.y > 1)", ["C", "A"]),
+                 ("exists (q : C) (forall (p : A) (p.y > q.y) && exists (p : B) (p.y > q.y))", ["A", "C", "B", "C"])]
+    dcases = []
+    for gtext, want in dyn_forms:
+        xml = (xmlgen.HEADER + "<nta><declaration>dynamic A(); dynamic B(); dynamic C(); int y;</declaration>" + dyn_t("A", "int[0,3] y;") +
+               dyn_t("B", "int[0,7] y;") + dyn_t("C", "int[0,9] y; int z;") +
+               '<template><name>M</name><declaration/><location id="m0"/><init ref="m0"/><transition><source ref="m0"/><target ref="m0"/>'
+               '<label kind="guard">%s</label></transition></template><system>system M;</system></nta>' % xmlgen.esc(gtext))
+        dcases.append((gtext, want, Case("dy%d" % len(dcases), [Step("parse_builder", 0, "xml_buffer", 1, "doc", 1, xml)], timeout=60)))
+    dres = run_cases([c for _, _, c in dcases])
+    for gtext, want, c in dcases:
+        r = dres[c.id]
+        if r["status"] != "ok":
+            rep.crash(r, c)
+            continue
+        s = r["steps"][0]
+        if s.get("exc") or s["errors"]:
+            rep.violation("C07:dynamic-binder:rejected", "guard %r over dynamic templates rejected: %s %s" % (gtext, s.get("exc"), s["errors"][:2]), c)
+            continue
+        g = [t for t in s["doc"]["templates"] if t["name"] == "M"][0]["edges"][0]["guard"]
+        got = re.findall(r"\(DYNAMIC_EVAL \(IDENTIFIER y@D:(\w+)\.local\)", g)
+        rep.observe(("dynamic-binder", gtext))
+        if got != want:
+            rep.violation("C07:dynamic-binder:wrong-template", "in %r the members y are bound to the templates %s, the nearest binders "
+                          "prescribe %s" % (gtext, got, want), c)
+    # ---- process-qualified names after a process has been removed from the document (public Document::remove_process)
+    pm = xmlgen.HEADER + "<nta><declaration>int g;</declaration>" + "".join(
+        '<template><name>T%s</name><declaration>int[0,%d] x;</declaration><location id="%s0"><name>L</name></location><init ref="%s0"/></template>'
+        % (n, 10 + k, n, n) for k, n in enumerate("ABCD")) + "<system>A = TA(); B = TB(); C = TC(); D = TD();\nsystem A, B, C, D;</system></nta>"
+    for victim in ("A", "B", "D"):
+        rest = [n for n in "ABCD" if n != victim]
+        c = Case("rm" + victim, [Step("parse_doc", 0, "xml_buffer", 1, 0, pm), Step("remove_process", 0, victim),
+                                 Step("query", 0, "", *["E<> %s.x >= 0" % n for n in "ABCD"])], timeout=60)
+        r = run_cases([c])[c.id]
+        if r["status"] != "ok":
+            rep.crash(r, c)
+            continue
+        if not r["steps"][1].get("removed"):
+            rep.inconclusive_case("remove_process did not find the process")
+            continue
+        rep.observe(("remove-process", victim))
+        for n, q in zip("ABCD", r["steps"][2]["results"]):
+            if n == victim:
+                continue
+            ok = not q["nerr"] and q["props"]
+            mt = dict((d.split(" .")[-1].rstrip(")"), t) for d, t in q["props"][0]["member_types"]) if ok else {}
+            wantt = "<RANGE <INT> <UNKNOWN (CONSTANT i 0)> <UNKNOWN (CONSTANT i %d)>>" % (10 + "ABCD".index(n))
+            if not ok or mt.get("x") != wantt:
+                rep.violation("C07:qualified-name-after-remove-process", "after remove_process(%s) the query 'E<> %s.x >= 0' gives %s / member "
+                              "type %s; %s.x is declared %s" % (victim, n, q["errors"], mt.get("x"), n, wantt), c)
     # ---- scopes after error recovery inside one template
     rcases = []
     for i in range(len(FAULTY)):
